@@ -1,3 +1,163 @@
 import B6.Driver.Common
-/-! Driver for C40 — stub (the check for this property is not built yet). -/
-def main : IO Unit := B6.Driver.run { σ := Unit, init := (), step := fun s _ _ => (s, .bad) }
+import B6.Model.Proto.Service
+import Std.Data.HashSet
+/-!
+Driver for C40.  State = the content of a fresh world (`base`) and the worlds as last reported by the
+implementation (resynchronised after every round).
+
+keys and values are numbers (key = feature*8 + tag index); a world is `{k=v,k=v}` sorted by key; a view is
+`[wid:{…} wid:{…}]` sorted by world ID.
+  base {k=v,…}           => {k=v,…}
+  worlds [wid:{…} …]     => [wid:{…} …]          (the view the next round starts from)
+  round [req …]          => [wid:{…} …] | hang | race | crash | fatal
+requests: `q<wid>` evaluate (non-change) · `d<wid>` delete-world · `l` list-worlds ·
+          `c<wid>(rule;rule;…)` evaluate to a change, rule = [`<k>?` present | `<k>!` absent] (`+k=v` | `-k`)
+
+All requests of a round are issued concurrently.  Predicate: the final view equals `serialRun` of the
+requests in SOME order (`serializable`), and the round ends (`no-deadlock`), without a crash or a data race
+report.  A non-serial outcome of a round that is not `conflictFree` (some request's change reads a key that
+another request of the round writes in the same world — exactly the hypothesis `serializable_blind` needs) and
+that the lock-protocol model can produce is the documented class `write-skew`.
+-/
+open B6.Driver B6.Model.Proto B6.Model.Proto.Service
+namespace B6.Driver.C40
+
+def parseKV (s : String) : Option (Nat × Nat) :=
+  match s.splitOn "=" with
+  | [k, v] => do some ((← k.toNat?), (← v.toNat?))
+  | _ => none
+
+/-- `{k=v,k=v}` -/
+def parseWorldText (s : String) : Option World :=
+  if s.startsWith "{" && s.endsWith "}" then
+    let inner := sdropEnd (sdrop s 1) 1
+    if inner.isEmpty then some [] else (inner.splitOn ",").mapM parseKV
+  else none
+
+def sortWorld (w : World) : World := w.mergeSort (fun a b => a.1 ≤ b.1)
+
+def renderWorldText (w : World) : String :=
+  "{" ++ ",".intercalate ((sortWorld w).map fun (k, v) => s!"{k}={v}") ++ "}"
+
+/-- `wid:{…}` -/
+def parseEntry (s : String) : Option (Nat × World) :=
+  match s.splitOn ":" with
+  | [i, w] => do some ((← i.toNat?), (← parseWorldText w))
+  | _ => none
+
+def parseView (s : String) : Option View := do
+  let ws ← parseBracket s
+  ws.mapM parseEntry
+
+def renderView (v : View) : String :=
+  renderList ((v.mergeSort (fun a b => a.1 ≤ b.1)).map fun (i, w) => s!"{i}:{renderWorldText w}")
+
+def parseWrite (s : String) : Option Write :=
+  match s.toList with
+  | '+' :: rest => (parseKV (String.ofList rest)).map fun (k, v) => Write.set k v
+  | '-' :: rest => (String.ofList rest).toNat?.map Write.del
+  | _ => none
+
+def parseRule (s : String) : Option Rule :=
+  let cs := s.toList
+  let g := cs.takeWhile (fun c => c != '+' && c != '-')
+  let w := cs.dropWhile (fun c => c != '+' && c != '-')
+  match parseWrite (String.ofList w) with
+  | none => none
+  | some wr =>
+    if g.isEmpty then some ⟨none, wr⟩ else
+    match g.getLast?, (String.ofList g.dropLast).toNat? with
+    | some '?', some k => some ⟨some (k, true), wr⟩
+    | some '!', some k => some ⟨some (k, false), wr⟩
+    | _, _ => none
+
+def parseReq (s : String) : Option Req :=
+  match s.toList with
+  | ['l'] => some .list
+  | 'q' :: rest => (String.ofList rest).toNat?.map Req.query
+  | 'd' :: rest => (String.ofList rest).toNat?.map Req.delete
+  | 'c' :: rest =>
+    let r := String.ofList rest
+    match r.splitOn "(" with
+    | [wid, rules] =>
+      if rules.endsWith ")" then
+        let inner := sdropEnd rules 1
+        match wid.toNat?, (if inner.isEmpty then some [] else (inner.splitOn ";").mapM parseRule) with
+        | some w, some rs => some (.change w rs)
+        | _, _ => none
+      else none
+    | _ => none
+  | _ => none
+
+def insertAll {α} (x : α) : List α → List (List α)
+  | [] => [[x]]
+  | y :: ys => (x :: y :: ys) :: (insertAll x ys).map (y :: ·)
+
+def perms {α} : List α → List (List α)
+  | [] => [[]]
+  | x :: xs => (perms xs).flatMap (insertAll x)
+
+/-- canonical texts of the views the requests can produce one at a time, in any order -/
+def serialOutcomes (base : World) (v : View) (reqs : List Req) : List String :=
+  ((perms reqs).map fun p => renderView (serialRun base v p)).eraseDups
+
+/-- every final view the lock-protocol model can reach (exhaustive, de-duplicated; small rounds only) -/
+partial def explore (todo : List State) (seen : Std.HashSet State) (acc : List String) : List String :=
+  match todo with
+  | [] => acc
+  | s :: rest =>
+    if seen.contains s then explore rest seen acc else
+    let seen := seen.insert s
+    if terminal s then
+      let t := renderView (viewOf s)
+      explore rest seen (if acc.contains t then acc else t :: acc)
+    else
+      -- ghost fields are reset so that they do not multiply states
+      let succ := (step false s).map fun s' => { s' with log := [], clients := s'.clients.map fun c => { c with logged := false } }
+      explore (succ ++ rest) seen acc
+
+def modelOutcomes (base : World) (v : View) (reqs : List Req) : List String :=
+  explore [init base v reqs] {} []
+
+structure St where
+  base : World := []
+  view : View := []
+
+def step (st : St) (op impl : String) : St × Verdict :=
+  match words op with
+  | ["base", w] =>
+    match parseWorldText w with
+    | some b => ({ st with base := b }, if impl == renderWorldText b then .ok else .diff (renderWorldText b))
+    | none => (st, .bad)
+  | "worlds" :: _ =>
+    match parseView (sdrop op 7) with
+    | some v => ({ st with view := v }, if impl == renderView v then .ok else .diff (renderView v))
+    | none => (st, .bad)
+  | "round" :: _ =>
+    match (parseBracket (sdrop op 6)).bind (·.mapM parseReq) with
+    | none => (st, .bad)
+    | some reqs =>
+      if reqs.length > 5 then (st, .bad) else
+      match parseView impl with
+      | none =>
+        -- no final view: the round did not end, or the process died
+        if impl == "hang" then (st, .propfail "no-deadlock")
+        else if impl == "race" then (st, .propfail "data-race")
+        else (st, .propfail ("crash:" ++ impl))
+      | some vi =>
+        let got := renderView vi
+        let st' := { st with view := vi }
+        let wids : List Nat := vi.map (·.1)
+        if wids.eraseDups.length != wids.length then (st', .propfail "one-world-per-id") else
+        if (serialOutcomes st.base st.view reqs).contains got then (st', .ok)
+        else if conflictFree reqs then (st', .propfail "serializable")
+        else if reqs.length ≤ 3 && (modelOutcomes st.base st.view reqs).contains got then
+          (st', .propfail "serializable class=write-skew")
+        else (st', .propfail "serializable-and-not-explained-by-the-model")
+  | _ => (st, .bad)
+
+def family : Family := { σ := St, init := {}, step := step }
+
+end B6.Driver.C40
+
+def main : IO Unit := B6.Driver.run B6.Driver.C40.family
